@@ -1,4 +1,95 @@
-import KfacVerif.Model.Precond
+/-
+C05 — update intervals and hyper-parameter schedules are honoured over any history.
+`refines` (Lemmas/Refine.lean): the distributed machine M-Precond (tied to the code by the
+correspondence) produces, on every rank, the gradients of the reference machine KV.Spec fed the
+same history.  The remaining theorems spell out what the reference machine does with intervals and
+schedules.  Property theorems only; helpers in Lemmas/SpecFacts.lean, Lemmas/Refine.lean.
+-/
+import KfacVerif.Lemmas.SpecFacts
+
 namespace KV.C05
-theorem placeholder : (1:Nat) = 1 := rfl
+open KV KV.Precond KV.Spec
+
+/-- **refinement**: gradients, step count, registered factor values and factors of every rank equal
+    those of the reference state machine, for every configuration, schedule and history (of any
+    length, any interleaving of train/eval passes, reset_batch, checkpoint round trips, scheduler
+    changes) on which the real code raises no exception -/
+theorem refines (c : Cfg) (hc : Refine.CfgOK2 c) (h : Hyper) (ops : List Op)
+    (hne : (Precond.run c (St.init c h) ops).err = none) :
+    let s := Precond.run c (St.init c h) ops
+    let t := Spec.run (ofCfg c) (SSt.init (ofCfg c) h) ops
+    s.steps = t.steps ∧ s.defs = t.defs ∧
+    (∀ r, r < c.world → s.outGrads.getD r [] = t.out) ∧
+    (∀ r l, r < c.world → l < c.layers.length →
+      ((getL s r l).aFactor.map (·.val)) = (getS t l).aFactor ∧
+      ((getL s r l).gFactor.map (·.val)) = (getS t l).gFactor) :=
+  Refine.refines c hc h ops hne
+
+/-- the step count grows by exactly one per step and by nothing else -/
+theorem steps_increment (c : SCfg) (s : SSt) (op : Op) :
+    (Spec.exec c s op).steps = if (match op with | .step => true | _ => false) then s.steps + 1 else s.steps := by
+  sorry
+
+/-- micro-step counters are cleared by every step -/
+theorem ministeps_cleared (c : SCfg) (s : SSt) : (Spec.step c s).mini = List.replicate c.nLayers 0 := by
+  sorry
+
+/-- **factors change only on multiples of the factor-update interval** (train pass and step) -/
+theorem factors_frozen_off_multiples (c : SCfg) (s : SSt) (hoff : s.steps % s.hyper.fus.val s.steps ≠ 0)
+    (l : Nat) :
+    (getS (Spec.fwdBwd c s true) l).aFactor = (getS s l).aFactor ∧
+    (getS (Spec.fwdBwd c s true) l).gFactor = (getS s l).gFactor ∧
+    (getS (Spec.step c s) l).aFactor = (getS s l).aFactor ∧
+    (getS (Spec.step c s) l).gFactor = (getS s l).gFactor ∧
+    (Spec.fwdBwd c s true).defs = s.defs ∧ (Spec.step c s).defs = s.defs := by
+  sorry
+
+/-- eval-mode passes change nothing at all (reference machine and distributed machine) -/
+theorem eval_noop (c : SCfg) (s : SSt) (c' : Cfg) (s' : St) :
+    Spec.fwdBwd c s false = s ∧ Precond.fwdBwd c' s' false = s' := by
+  sorry
+
+/-- the second-order data of a layer, as the fields `precond` reads -/
+def soOf (x : SLayer) : List (Option V) := [x.qa, x.da, x.qg, x.dg, x.dgda, x.aInv, x.gInv]
+
+/-- **second-order data is recomputed only on multiples of the inverse-update interval**: on any
+    other step the stale data is kept … -/
+theorem so_frozen_off_multiples (c : SCfg) (s : SSt) (hoff : s.steps % s.hyper.ius.val s.steps ≠ 0)
+    (l : Nat) : soOf (getS (Spec.step c s) l) = soOf (getS s l) := by
+  sorry
+
+/-- … and on a multiple (always on step 0) every layer's data is recomputed from the factors as
+    they are after this step's factor update, with the damping of this step -/
+theorem refresh_on_multiples (c : SCfg) (s : SSt) (hon : s.steps % s.hyper.ius.val s.steps = 0)
+    (l : Nat) (hl : l < c.nLayers) (hlen : s.layers.length = c.nLayers) :
+    let x := getS (Spec.step c s) l
+    let d := s.hyper.damping.val s.steps
+    match c.method with
+    | .inverse => x.aInv = some (.inv (x.aFactor.getD .zero) d) ∧ x.gInv = some (.inv (x.gFactor.getD .zero) d)
+    | .eigen =>
+      x.qa = some (.eigQ (x.aFactor.getD .zero)) ∧ x.qg = some (.eigQ (x.gFactor.getD .zero)) ∧
+      (if c.prediv then x.dgda = some (.outerInv (.eigD (x.gFactor.getD .zero)) (.eigD (x.aFactor.getD .zero)) d)
+       else x.da = some (.eigD (x.aFactor.getD .zero)) ∧ x.dg = some (.eigD (x.gFactor.getD .zero))) := by
+  sorry
+
+theorem step_zero_refreshes (h : Hyper) : 0 % h.ius.val 0 = 0 := Nat.zero_mod _
+
+/-- **schedules are evaluated at the current step count**: a step depends on the six
+    hyper-parameters only through their values at `s.steps` -/
+theorem schedules_read_at_current_step (c : SCfg) (s : SSt) (h' : Hyper)
+    (e1 : h'.fus.val s.steps = s.hyper.fus.val s.steps) (e2 : h'.ius.val s.steps = s.hyper.ius.val s.steps)
+    (e3 : h'.damping.val s.steps = s.hyper.damping.val s.steps) (e4 : h'.decay.val s.steps = s.hyper.decay.val s.steps)
+    (e5 : h'.kl.val s.steps = s.hyper.kl.val s.steps) (e6 : h'.lr.val s.steps = s.hyper.lr.val s.steps) :
+    let a := Spec.step c s
+    let b := Spec.step c { s with hyper := h' }
+    a.out = b.out ∧ a.layers = b.layers ∧ a.defs = b.defs ∧ a.steps = b.steps := by
+  sorry
+
+/-- **damping baked in at refresh time**: for the inverse method and for pre-divided eigenvalues the
+    preconditioned gradient does not depend on the damping of the current step (only on the data
+    computed at the last refresh); for plain eigen it uses the damping of the current step -/
+theorem damping_baked_at_refresh (c : SCfg) (s : SSt) (l : Nat) (d d' : Rat)
+    (hm : c.method = .inverse ∨ c.prediv = true) : Spec.precond c s l d = Spec.precond c s l d' := by
+  sorry
+
 end KV.C05
